@@ -468,36 +468,169 @@ theorem funcDefP_ok (f : FDefP) (hwf : WFFDefP env.ty f) (hty : ∀ x ∈ f.name
     Bool.not_true, pDeclSpecs, h1', requireSpec, Bool.false_and, StmtSkel.pur, mark, hscan, hi1, hreset, hnid, h5, horm, hsd', h8,
     List.head?_cons, Option.map_some, hne8, htyne, h9, buildFunctionDefinition, hco', hntd, hinfo', h10, FDefP.vals, htn]
 
+/-! ## prototypes at file scope -/
+
+/-- `specifiers name ( parameters ) {, init-declarator} ;` -/
+structure Proto where
+  specs : List Tk
+  fd : FD
+  more : List IDc
+
+namespace Proto
+def flat (p : Proto) : List Tk := p.specs ++ (p.fd.flat ++ (restFlat p.more ++ [("SEMI", ";")]))
+def ntoks (p : Proto) : Nat := p.specs.length + p.fd.ntoks + restNtoks p.more + 1
+def fuel (p : Proto) : Nat := max (p.specs.length + 1) (max (p.fd.fuel + 4) (restFuel p.more)) + 3
+/-- the declared names: the function and the other declarators (not the parameters) -/
+def names (p : Proto) : List String := p.fd.x :: p.more.map fun it => dName it.d
+def dis (n : Nat) (p : Proto) : List DI :=
+  p.fd.di (n + p.specs.length) :: restDIs (n + p.specs.length + p.fd.ntoks) p.more
+def vals (n : Nat) (p : Proto) : List Val :=
+  match typeNames n p.specs with
+  | [] => []
+  | p0 :: names => (p.dis n).map (declOut (foldSpec n {} p.specs) p0.2 (specNames p0 names))
+end Proto
+
+structure WFProto (p : Proto) : Prop where
+  specToks : SpecToks false p.specs
+  specVals : SpecVals p.specs
+  sawType : sawAfter false p.specs = true
+  params : WFPLV p.fd.params
+  more : ∀ it ∈ p.more, WFI it
+
+/-- **`_parse_external_declaration`** on a prototype: the `Decl` carries the `FuncDecl` with its
+`ParamList`; the parameter names are *not* registered -/
+theorem extProto_ok (p : Proto) (hwf : WFProto p) (hty : ∀ x ∈ p.names, env.ty x = false)
+    (s : PState) (rest : List Tk) (hs : SeesT env s (p.flat ++ rest)) (F : Nat) (hF : p.fuel ≤ F) :
+    ∃ s', run F .externalDeclaration s = .ok (p.vals s.idx) s' ∧ SeesT env s' rest ∧ s'.idx = s.idx + p.ntoks := by
+  obtain ⟨G, rfl⟩ : ∃ G, F = G + 1 := ⟨F - 1, by simp only [Proto.fuel] at hF; omega⟩
+  simp only [Proto.fuel] at hF
+  obtain ⟨t, r, hsp, hk0, hk1, hk2, hk3, hk4, hk5⟩ := specs_head hwf.specToks hwf.sawType
+  obtain ⟨k2, v2, r2, hhd, hend⟩ := restFlat_head p.more rest
+  have hs0 : SeesT env s (p.specs ++ (p.fd.flat ++ (k2, v2) :: r2)) := by
+    have : p.flat ++ rest = p.specs ++ (p.fd.flat ++ (k2, v2) :: r2) := by
+      simp only [Proto.flat, List.append_assoc, ← hhd, List.cons_append, List.nil_append]
+    rw [this] at hs; exact hs
+  have hs0' : SeesT env s ((t.1, t.2) :: (r ++ (p.fd.flat ++ (k2, v2) :: r2))) := by rw [hsp] at hs0; simpa using hs0
+  obtain ⟨sa, hpa, hsa, _, hia, _⟩ := peek_spec s t.1 t.2 _ hs0'
+  obtain ⟨sb, hpb, hsb, hib⟩ := accept_other sa _ "SEMI" hsa (by
+    intro k' v' r' h; simp only [List.cons.injEq, Prod.mk.injEq] at h; rw [← h.1.1]; exact hk4)
+  have hsb' : SeesT env sb (p.specs ++ (p.fd.flat ++ (k2, v2) :: r2)) := by rw [hsp]; simpa using hsb
+  have hfo : FollowSpec (p.fd.flat ++ (k2, v2) :: r2) := by
+    intro k v r' h
+    simp only [FD.flat, List.cons_append, List.cons.injEq, Prod.mk.injEq] at h
+    rw [← h.1.1]; decide
+  obtain ⟨s1, h1, hs1, hi1⟩ := specs_loop p.specs {} false false none sb _ G hwf.specToks hfo hsb' (by omega) (fun _ => rfl)
+  have eb : sb.idx = s.idx := by omega
+  rw [eb] at h1 hi1
+  have hne := sawAfter_ne_nil hwf.sawType
+  have hsome : (if (false || !p.specs.isEmpty) = true then some (foldSpec s.idx {} p.specs) else none) =
+      some (foldSpec s.idx {} p.specs) := by
+    cases hsp' : p.specs with
+    | nil => exact absurd hsp' hne
+    | cons t r => rfl
+  rw [hsome, hwf.sawType] at h1
+  have h1' : run G (.declSpecsLoop none false none) sb = .ok (some (foldSpec s.idx {} p.specs), true, firstCoord none s.idx p.specs) s1 := h1
+  -- scan: no stars, the identifier
+  have hs1' : SeesT env s1 (("ID", p.fd.x) :: (("LPAREN", "(") :: (p.fd.params.flat ++ [("RPAREN", ")")]) ++ (k2, v2) :: r2)) := by
+    simpa [FD.flat, List.append_assoc] using hs1
+  obtain ⟨G1, rfl⟩ : ∃ G1, G = G1 + 1 := ⟨G - 1, by omega⟩
+  obtain ⟨sc, hc, hsc, hic⟩ := scanStars_loop [] s1
+    (("ID", p.fd.x) :: (("LPAREN", "(") :: (p.fd.params.flat ++ [("RPAREN", ")")]) ++ (k2, v2) :: r2)) G1
+    (by intro q hq; cases hq)
+    (by intro k v r' h; simp only [List.cons.injEq, Prod.mk.injEq] at h; rw [← h.1.1]; exact ⟨by decide, by decide⟩)
+    (by simpa [starsFlat] using hs1') (by simp [starsNtoks]; omega)
+  obtain ⟨sd, hd, hsd, _, hid, _⟩ := peek_spec sc "ID" p.fd.x _ hsc
+  obtain ⟨s3, h3, hs3, _, hi3, _⟩ := advance_spec sd "ID" p.fd.x _ hsd
+  have hscan : run (G1 + 1) .scanDeclaratorNameInfo s1 = .ok (some "ID", false) s3 := by
+    show pScanDeclaratorNameInfo (run G1) s1 = _
+    simp [pScanDeclaratorNameInfo, StmtSkel.bnd, hc, hd, h3, StmtSkel.pur]
+  simp only [starsNtoks] at hic
+  obtain ⟨s4, h4, hs4, hi4⟩ := reset_to s1 s3 _ _ hs1 hs3 (by omega)
+  have hendP : EndsProto (k2, v2).1 := by
+    rcases hend with h' | h'
+    · exact .inr h'
+    · exact .inl h'
+  obtain ⟨s5, h5, hs5, hi5⟩ := fdeclarator_proto p.fd hwf.params s4 (k2, v2) r2 hendP hs4 (G1 + 1) (by omega)
+  have hk2n : k2 ≠ "LBRACE" ∧ inSet (some k2) declStart = false ∧ k2 ≠ "EQUALS" := by
+    rcases hend with rfl | rfl <;> exact ⟨by decide, by decide, by decide⟩
+  obtain ⟨s6, h6, hs6, hi6, _⟩ := peekType_spec s5 _ hs5
+  obtain ⟨s7, h7, hs7, hi7, _⟩ := peekType_spec s6 _ hs6
+  have horm : orM (peekIs "LBRACE") startsDeclaration s5 = .ok false s7 := by
+    have : (some k2 == some "LBRACE") = false := by simpa using hk2n.1
+    simp [orM, peekIs, StmtSkel.bnd, h6, StmtSkel.pur, this, startsDeclaration, h7, hk2n.2.1]
+  obtain ⟨s8, h8, hs8, hi8⟩ := accept_other s7 _ "EQUALS" hs7 (by
+    intro k v r' h; simp only [List.cons.injEq, Prod.mk.injEq] at h; rw [← h.1.1]; exact hk2n.2.2)
+  rw [← hhd] at hs8
+  obtain ⟨s9, h9, hs9, hi9⟩ := initList_loop p.more [(p.fd.di (s.idx + p.specs.length)).info] s8 rest (G1 + 1) hwf.more hs8 (by omega)
+  obtain ⟨p0, names, htn, hok⟩ := specOK_fold p.specs s.idx hwf.specToks hwf.specVals hwf.sawType
+  have hnames : ∀ d ∈ p.dis s.idx, env.ty d.x = false := by
+    intro d hd
+    apply hty
+    simp only [Proto.dis, List.mem_cons] at hd
+    rcases hd with rfl | hd
+    · exact List.mem_cons_self
+    · have : d.x ∈ (restDIs (s.idx + p.specs.length + p.fd.ntoks) p.more).map (·.x) := List.mem_map_of_mem hd
+      rw [restDIs_names] at this
+      exact List.mem_cons_of_mem _ this
+  obtain ⟨s10, h10, hs10, hi10⟩ := buildDeclarations_ok (foldSpec s.idx {} p.specs) p0 names hok
+    (p.fd.di (s.idx + p.specs.length)) (restDIs (s.idx + p.specs.length + p.fd.ntoks) p.more) hnames s9 _ hs9
+  obtain ⟨s11, h11, hs11, hi11⟩ := expect_same s10 "SEMI" ";" rest hs10
+  refine ⟨s11, ?_, hs11, by simp only [Proto.ntoks]; omega⟩
+  have e4 : s4.idx = s.idx + p.specs.length := by omega
+  rw [e4] at h5
+  have e8 : s8.idx = s.idx + p.specs.length + p.fd.ntoks := by omega
+  rw [e8] at h9
+  have hinfo : ({ decl := (p.fd.di (s.idx + p.specs.length)).raw, init := Val.none } : DeclInfo) =
+      (p.fd.di (s.idx + p.specs.length)).info := rfl
+  simp only [List.map_cons, List.singleton_append] at h9 h10
+  rw [← hinfo] at h9 h10
+  have hc' : declStart.contains t.1 = true := by simpa using hk0
+  have hreset : reset (s.idx + p.specs.length) s3 = .ok () s4 := by rw [← hi1]; exact h4
+  have b1 : (t.1 == "PPHASH") = false := by simpa using hk1
+  have b2 : (t.1 == "PPPRAGMA" || t.1 == "_PRAGMA") = false := by simp [hk2, hk3]
+  have b5 : (t.1 == "_STATIC_ASSERT") = false := by simpa using hk5
+  have hnid : ((some "ID" : Option String) != some "ID") = false := rfl
+  show pExternalDeclaration (run (G1 + 1)) s = _
+  simp only [pExternalDeclaration, StmtSkel.bnd, hpa, b1, b2, hpb, b5, hc', Bool.false_eq_true, ↓reduceIte, Option.isSome_none,
+    Bool.not_true, pDeclSpecs, h1', requireSpec, Bool.false_and, StmtSkel.pur, mark, hscan, hi1, hreset, hnid, h5, horm, h8,
+    h9, h10, h11, Proto.vals, htn, Proto.dis, List.map_cons]
+
 /-! ## translation units -/
 
 inductive Ext where
   | decl (dc : Dcl)
   | fdef (f : FDef)
   | fdefp (f : FDefP)
+  | proto (p : Proto)
 
 namespace Ext
 def flat : Ext → List Tk
   | .decl dc => dc.flat
   | .fdef f => f.flat
   | .fdefp f => f.flat
+  | .proto p => p.flat
 def ntoks : Ext → Nat
   | .decl dc => dc.ntoks
   | .fdef f => f.ntoks
   | .fdefp f => f.ntoks
+  | .proto p => p.ntoks
 def vals (n : Nat) : Ext → List Val
   | .decl dc => dc.vals n
   | .fdef f => f.vals n
   | .fdefp f => f.vals n
+  | .proto p => p.vals n
 def fuel : Ext → Nat
   | .decl dc => dc.fuel + 2
   | .fdef f => f.fuel
   | .fdefp f => f.fuel
+  | .proto p => p.fuel
 end Ext
 
 def WFExt (ty : String → Bool) : Ext → Prop
   | .decl dc => WFDcl dc
   | .fdef f => WFFDef ty f
   | .fdefp f => WFFDefP ty f
+  | .proto p => WFProto p
 
 def extsFlat : List Ext → List Tk
   | [] => []
@@ -520,6 +653,7 @@ theorem ext_ok (e : Ext) (hwf : WFExt env.ty e) (hty : ∀ x, env.ty x = false) 
   | decl dc => exact extDcl_ok dc hwf (fun x _ => hty x) s rest hs F hF
   | fdef f => exact funcDef_ok f hwf (hty _) s rest hs F hF
   | fdefp f => exact funcDefP_ok f hwf (fun x _ => hty x) s rest hs F hF
+  | proto p => exact extProto_ok p hwf (fun x _ => hty x) s rest hs F hF
 
 theorem ext_head {ty : String → Bool} : ∀ (e : Ext), WFExt ty e → ∃ t r, e.flat = t :: r
   | .decl dc, hw => by obtain ⟨t, r, h, _⟩ := Dcl.head hw; exact ⟨t, r, h⟩
@@ -529,6 +663,10 @@ theorem ext_head {ty : String → Bool} : ∀ (e : Ext), WFExt ty e → ∃ t r,
   | .fdefp f, hw => by
     obtain ⟨t, r, hsp, _⟩ := specs_head hw.specToks hw.sawType
     exact ⟨t, r ++ (f.fd.flat ++ bodyFlat f.body), by show Ext.flat (.fdefp f) = _; simp only [Ext.flat, FDefP.flat, hsp]; rfl⟩
+  | .proto p, hw => by
+    obtain ⟨t, r, hsp, _⟩ := specs_head hw.specToks hw.sawType
+    exact ⟨t, r ++ (p.fd.flat ++ (restFlat p.more ++ [("SEMI", ";")])), by
+      show Ext.flat (.proto p) = _; simp only [Ext.flat, Proto.flat, hsp]; rfl⟩
 
 /-- **`_parse_translation_unit`** -/
 theorem tu_loop : ∀ (l : List Ext) (acc : List Val) (s : PState) (F : Nat), (∀ e ∈ l, WFExt env.ty e) → (∀ x, env.ty x = false) →
